@@ -189,6 +189,10 @@ func allocBounded(pr *Prog, at *ssa.BasicBlock, v ssa.Value, depth int, seen map
 			}
 			return false
 		}
+		// the amount of data a library container already holds
+		if CalleeOf(x).Is("bytes:Buffer.Len", "bytes:Buffer.Cap", "bytes:Reader.Len", "strings:Builder.Len", "strings:Reader.Len", "bufio:Reader.Buffered", "bufio:Writer.Buffered") {
+			return true
+		}
 		return callResultBounded(pr, x, 0, depth, seen)
 	}
 	return false
